@@ -6,6 +6,8 @@ import (
 	"time"
 )
 
+func jsonUnmarshal(b []byte, v interface{}) error { return json.Unmarshal(b, v) }
+
 func parseTime(ts string) (time.Time, error) { return time.Parse(time.RFC3339Nano, ts) }
 
 // ext decodes the record families added with later subsystems (proposals, trackers,
